@@ -93,6 +93,8 @@ def c16_run(rng, stock, cls, width, transport):
     cfg = base_config(rng, cls)
     cfg["stock"] = stock
     cfg["transport"] = transport
+    if transport == "unix" and rng.random() < 0.3:
+        cfg["relpath"] = 1      # relative socket path, deep working directory (round 13)
     steps = [{"op": "start"}, {"op": "idle"}]
     hist = None if stock else rng.choice([None, None, None, "restart", "restart_early", "abrupt"])
     if hist == "restart_early" and transport != "tcp":
@@ -279,7 +281,8 @@ def gen_command(rng, cls, short=False):
         text = ["apply", ("tpsim.ctlpkg." if fn == "nightly" else W) + fn]
         args, kwargs, num, gname = (), None, 1, None
         if rng.random() < 0.5:
-            args = rng.choice([(), (1,), (1, 2), ("x",), (1, "y", 3.5), ([1, 2],), ([1, 2], {"a": [3]})])
+            args = rng.choice([(), (1,), (1, 2), ("x",), (1, "y", 3.5), ([1, 2],), ([1, 2], {"a": [3]}),
+                               ("(",), ["[x"], ("}", ")"), ("a]", 1)])      # brackets inside strings are text, not nesting
             text.append(opt("--args", "-a") + " " + lit(args))
             if rng.random() < 0.06:
                 # valid as a Python literal and as JSON, but with different meanings (Python keeps the backslash of \/)
@@ -399,6 +402,23 @@ def c17_unit(rng, seed):
     ncmd = rng.choice([3, 6, 10, 16])
     short = rng.random() < 0.5
     cmds = []
+    if rng.random() < 0.15:
+        # many one-task groups, then the ids of several of them at once: a set of small ints whose iteration order is
+        # not the ascending one ({8, 1} prints as "{8, 1}") - the reply is str() of exactly what the method returns
+        k = rng.choice([9, 10, 12, 17, 20, 33])
+        for _ in range(k):
+            if cls == "S":
+                cmds.append({"text": "start 1", "direct": {"m": "start", "a": [1]}, "gates": []})
+            else:
+                cmds.append({"text": "apply " + W + "work", "direct": {"m": "apply", "a": [{"$func": "work"}, [], None, 1, None, None, None]}, "gates": []})
+        pat = "start-group-%d" if cls == "S" else "apply-work-group-%d"
+        for _ in range(rng.choice([2, 3, 5])):
+            ids = rng.sample(range(k), rng.choice([2, 2, 3, 4, 6]))
+            if rng.random() < 0.7:
+                ids[0] = rng.choice([8, k - 1])
+                ids = list(dict.fromkeys(ids))
+            gs = [pat % i for i in ids]
+            cmds.append({"text": " ".join(["get-group-ids"] + gs), "direct": {"m": "get_group_ids", "a": gs}, "gates": []})
     for _ in range(ncmd):
         text, direct = gen_command(rng, cls, short)
         gates = []
@@ -759,6 +779,8 @@ def c19_run(rng):
     cfg["net"]["max_chunk"] = 0
     if cfg["transport"] == "unix" and rng.random() < 0.25:
         cfg["stale_socket"] = True
+    if cfg["transport"] == "unix" and rng.random() < 0.2:
+        cfg["relpath"] = 1
     steps = [{"op": "start"}]
     if rng.random() < 0.8:
         steps.append({"op": "idle"})
